@@ -238,6 +238,8 @@ impl FileReader for RecFileReader {
 #[derive(Clone, Debug)]
 pub enum UserReq {
     ReadClasses([bool; 4]),
+    /// the same READ through `read_with_handler`: the response goes to a handler of its own (`MasterSim::custom`)
+    ReadClassesCustom([bool; 4]),
     ReadRange16(u8, u8, u16, u16),
     /// select-before-operate?, control objects: (kind 0 crob|1..4 g41vN, index, 16-bit index?, value)
     Command(bool, Vec<(u8, u16, bool, u32)>),
@@ -284,6 +286,8 @@ pub struct MasterSim {
     pub epoch: u32,
     next_id: u64,
     pub run_errors: Arc<Mutex<Vec<String>>>,
+    /// what the handlers passed to `read_with_handler` received (UserReq::ReadClassesCustom)
+    pub custom: Recorder,
 }
 
 pub fn build_commands(objs: &[(u8, u16, bool, u32)]) -> CommandHeaders {
@@ -447,6 +451,7 @@ impl MasterSim {
             epoch: 0,
             next_id: 0,
             run_errors,
+            custom: Recorder::new(),
         }
     }
 
@@ -537,8 +542,20 @@ impl MasterSim {
         let mut h = self.assocs[ai].1.clone();
         let shared = self.shared.clone();
         let t0 = self.now();
+        let custom = self.custom.clone();
         tokio::spawn(async move {
             let text = match req {
+                UserReq::ReadClassesCustom(c) => format!(
+                    "{:?}",
+                    h.read_with_handler(
+                        ReadRequest::class_scan(Classes {
+                            class0: c[0],
+                            events: EventClasses::new(c[1], c[2], c[3])
+                        }),
+                        Box::new(custom)
+                    )
+                    .await
+                ),
                 UserReq::ReadClasses(c) => format!(
                     "{:?}",
                     h.read(ReadRequest::class_scan(Classes {
